@@ -8,7 +8,7 @@ from ..models import ModelEval, PyObj, Marker, Raised, fold
 from ..peval import Model, Unsupported
 from ..source import AnalysisError
 from ..specs import npmodel, operators as optab
-from .core_models import slice_key, RawTok, NdTok, ARRAY_Q, VECTOR_Q
+from .core_models import BoolList, _dtname, slice_key, RawTok, NdTok, ARRAY_Q, VECTOR_Q
 
 ERR = (Unsupported, AnalysisError)
 DIMS = {"m": "L", "cm": "L", "km": "L", "s": "T", "dimensionless": "1", "percent": "1", "g": "M"}
@@ -298,6 +298,10 @@ def is_masked(origin):
 
 def _as_array(copying, keeps_subclass=True):
     def f(v, *a, **k):
+        dt_ = k.get("dtype", a[0] if a else None)
+        if isinstance(v, (list, tuple)) and v and all(isinstance(e, bool) for e in v) and dt_ is not None and _dtname(dt_) not in ("bool", "bool_"):
+            # a mask written as a list, cast to numbers: row numbers 0 and 1, another selection
+            return RawTok(("booleans cast to %s" % _dtname(dt_), tuple(v)), (len(v),))
         if not isinstance(v, (RawTok, Result, NdTok)):
             return RawTok(("num", v) if not isinstance(v, list) else ("list", tuple(v)), ())
         if not keeps_subclass and not k.get("subok", False) and is_masked(getattr(v, "origin", None)):
@@ -670,6 +674,7 @@ def check_index_gate_fold(run, tree):
              ("reversing slice", lambda: slice(None, None, -1), ("idx", "A", slice_key((4,), slice(None, None, -1))), True),
              ("integer", lambda: 2, ("idx", "A", 2), True),
              ("ndarray", lambda: RawTok("M", (4,)), ("idx", "A", "M"), True),
+             ("a mask written as a python list of booleans", lambda: BoolList([True, False, True, True]), ("idx", "A", BoolList([True, False, True, True])), True),
              ("Vector", lambda: PyObj(tree.cls(VECTOR_Q)), "raises ValueError", False)]
     for name, kind in npmodel.DTYPES.items():
         ok = kind in "iub"
